@@ -625,7 +625,12 @@ pub fn validate_traces<S: Sys>(fresh: impl Fn() -> S, ex: &Explored<S>) -> Resul
                     }
                 }
                 Err((key, what)) => {
-                    return Err(format!("replay divergence: fresh replay of {:?} failed [{}] {}", t, key, what))
+                    // the clone-free replay of an explored trace ran into an oracle failure the exploration
+                    // had not seen on that path: the outcome depends on something outside the objects
+                    // (state shared between library objects). The oracle failure is a violation in its own
+                    // right; it is reported as such (the machinery itself is validated on every clean run).
+                    defer_violation(format!("{}:on-replay", key), format!("{} [a trace that passed during exploration fails when replayed on fresh objects: {:?}]", what, t));
+                    break;
                 }
             }
         }
@@ -674,8 +679,12 @@ pub fn validate_case(rep: &mut Report, replay: fn(&Value) -> Result<Option<Strin
     match guarded(|| replay(&case)) {
         Ok(Ok(None)) => rep.traces_validated += 1,
         Ok(Ok(Some(w))) => {
-            eprintln!("machinery: replay divergence: a case that held in the sweep fails when replayed: {} [{}]", w, case);
-            std::process::exit(2);
+            // as above: an oracle failure that shows only when the case is run again on fresh objects
+            let (key, what) = match w.strip_prefix('[').and_then(|r| r.split_once("] ")) {
+                Some((k, rest)) => (k.to_string(), rest.to_string()),
+                None => ("replay".to_string(), w.clone()),
+            };
+            defer_violation(format!("{}:on-replay", key), format!("{} [a case that held in the sweep fails when run again on fresh objects: {}]", what, case));
         }
         Ok(Err(e)) => {
             eprintln!("machinery: case cannot be replayed: {} [{}]", e, case);
@@ -848,8 +857,11 @@ pub fn with_aliased<T>(input: &[u8], f: impl FnOnce(&[u8]) -> T) -> T {
     ALIAS_BUF.with(|b| {
         // re-entrant use (a nested call) falls back to the caller's own slice
         let Ok(mut b) = b.try_borrow_mut() else { return f(input) };
-        if b.len() < input.len() {
-            b.resize(input.len().next_power_of_two(), 0);
+        if input.len() > b.len() {
+            // very large inputs (stress shapes) are handed over as they are: copying them per call would
+            // dominate the run
+            drop(b);
+            return f(input);
         }
         b[..input.len()].copy_from_slice(input);
         f(&b[..input.len()])
@@ -867,6 +879,16 @@ static DEFERRED_MACHINERY: Mutex<Vec<String>> = Mutex::new(Vec::new());
 
 pub fn defer_machinery_failure(msg: String) {
     DEFERRED_MACHINERY.lock().unwrap().push(msg);
+}
+
+static DEFERRED_VIOLATIONS: Mutex<Vec<(String, String)>> = Mutex::new(Vec::new());
+
+pub fn defer_violation(key: String, what: String) {
+    DEFERRED_VIOLATIONS.lock().unwrap().push((key, what));
+}
+
+pub fn take_deferred_violations() -> Vec<(String, String)> {
+    std::mem::take(&mut *DEFERRED_VIOLATIONS.lock().unwrap())
 }
 
 pub fn take_machinery_failures() -> Vec<String> {
